@@ -578,6 +578,35 @@ pub fn suite_errtable(ctx: &mut Ctx, seed: u64, n: usize, threads: usize) {
             s.push_str(&format!("h c take {id} some {errno} {want}\n"));
         }
     }
+    // the id generator itself: a long run of failing calls, each consumed at once.  The model takes the generator's range
+    // ([INT_MIN, -4096]: never a valid descriptor, never an -errno) as given; here it is observed on millions of draws.
+    let soak: usize = std::env::var("VERIF_ERRID_SOAK").ok().and_then(|v| v.parse().ok()).unwrap_or(0);
+    if soak > 0 {
+        let mut bad: Option<(usize, i32)> = None;
+        let mut lost: Option<(usize, i32)> = None;
+        for k in 0..soak {
+            let id = verif::capi::store_error(2, 0);
+            if id > -4096 && bad.is_none() {
+                bad = Some((k, id));
+            }
+            let e = unsafe { capi::pathrs_errorinfo(id) };
+            if e.is_null() {
+                if lost.is_none() {
+                    lost = Some((k, id));
+                }
+            } else {
+                unsafe { capi::pathrs_errorinfo_free(e) };
+            }
+            if bad.is_some() || lost.is_some() {
+                break;
+            }
+        }
+        s.push_str(&format!(
+            "soak n={soak} bad={} lost={}\n",
+            bad.map(|(k, id)| format!("{k}:{id}")).unwrap_or_else(|| "none".into()),
+            lost.map(|(k, id)| format!("{k}:{id}")).unwrap_or_else(|| "none".into())
+        ));
+    }
     s.push_str("end\n");
     ctx.out.write_all(s.as_bytes()).unwrap();
 }
